@@ -872,7 +872,7 @@ class Builtins:
             r = getattr(s.py, name)(*[a.py for a in args])  # type: ignore
             return self.from_py(r)
         us0 = s.units() if s.py is None else None
-        if us0 is not None and len(us0) <= 8 and name in ("replace", "splitlines", "strip", "lstrip", "rstrip") \
+        if us0 is not None and len(us0) <= 160 and name in ("replace", "splitlines", "strip", "lstrip", "rstrip") \
                 and all(isinstance(a, VStr) and a.py is not None for a in args):
             return self.units_method(s, us0, name, [a.py for a in args])
         if name in ("startswith", "endswith"):
